@@ -81,7 +81,7 @@ class Ctx:
     def match_known(self, kind, sig, case):
         facts = None
         for e in self.known_entries:
-            if e.get("property") != self.prop_id:
+            if e.get("property") != self.prop_id and self.prop_id not in e.get("properties", []):
                 continue
             m = e.get("match", {})
             if m.get("kind") is not None and m["kind"] != kind:
@@ -91,7 +91,14 @@ class Ctx:
             where = m.get("where") or {}
             if where:
                 if facts is None:
-                    facts = self.facts_fn(case) if self.facts_fn else {}
+                    from vf.props.common import common_facts
+
+                    inner = case.get("case", case) if isinstance(case, dict) else {}
+                    facts = common_facts(inner) if isinstance(inner, dict) else {}
+                    try:
+                        facts.update((self.facts_fn(case) if self.facts_fn else {}) or {})
+                    except Exception:
+                        pass
                 if any(facts.get(k) != v for k, v in where.items()):
                     continue
             return e
@@ -162,8 +169,11 @@ def hyp_run(strategy, body, seed, n, tier, stateful=None):
     import hypothesis
     from hypothesis import HealthCheck, Phase, given, settings
 
+    # Hypothesis starts the generate phase with the simplest possible example (all draws minimal).  With a few
+    # examples per shard that example would dominate, so it is generated but not evaluated.
+    state = {"first": True}
     st = settings(
-        max_examples=max(1, n),
+        max_examples=max(1, n) + 1,
         database=None,
         deadline=None,
         derandomize=False,
@@ -177,6 +187,9 @@ def hyp_run(strategy, body, seed, n, tier, stateful=None):
     @st
     @given(strategy)
     def test(case):
+        if state["first"]:
+            state["first"] = False
+            return
         body(case)
 
     test()
@@ -377,9 +390,10 @@ def run_check(prop_name, tier, seed):
     wall = time.time() - t0
     write_evidence(mod, tier, seed, merged, wall, n_viol)
 
-    for fid, cnt in sorted(merged["known"].items()):
-        what = next((e["what"] for e in known if e["id"] == fid), "")
-        print(f"KNOWN-FINDING: property={mod.ID} {fid} {what} (excluded {cnt} cases)")
+    for e in known:
+        if e.get("status") == "open" and (e.get("property") == mod.ID or mod.ID in e.get("properties", [])):
+            cnt = merged["known"].get(e["id"], 0)
+            print(f"KNOWN-FINDING: property={mod.ID} {e['id']} {e['what']} (met and excluded in this run: {cnt} cases)")
     for ln in lines:
         print(ln)
     print(
